@@ -36,6 +36,7 @@ type Anchors struct {
 	FreshLife     int
 	AgeT          *types.Named
 	RefT          *types.Named // internal.ResponseRef
+	RefIDField    int          // field of RefT holding the response id (read by RoundTrip for the entry lookup)
 	RevalCtxT     *types.Named
 	ConnT         *types.Named // store/driver.Conn
 	Fn            map[string]*ssa.Function
@@ -663,6 +664,41 @@ func ResolveAnchors(p *Prog) *Anchors {
 	})
 	if vh := a.Fn["validationHandler"]; vh != nil {
 		a.RevalCtxT = namedOf(sigParams(vh)[0])
+	}
+	// the id field of an index element: what RoundTrip passes to the entry read
+	a.RefIDField = -1
+	if re := a.Fn["readEntry"]; re != nil && a.RefT != nil {
+		instrsOf(a.Root, func(in ssa.Instruction) {
+			ci, ok := in.(ssa.CallInstruction)
+			if !ok {
+				return
+			}
+			hit := false
+			for _, cal := range p.Callees(ci) {
+				if cal == re {
+					hit = true
+				}
+			}
+			if !hit {
+				return
+			}
+			_, args := recvAndArgs(ci.Common())
+			if len(args) == 0 {
+				return
+			}
+			p.TraceBack(args[0], TraceOpts{NoParams: true, NoHeapFields: true}, func(v ssa.Value, _ []int) bool {
+				if u, ok := v.(*ssa.UnOp); ok {
+					if fa, ok := u.X.(*ssa.FieldAddr); ok && isPtrToNamed(fa.X.Type(), a.RefT) {
+						a.RefIDField = fa.Field
+						return false
+					}
+				}
+				return true
+			})
+		})
+		if a.RefIDField >= 0 {
+			a.Log = append(a.Log, fmt.Sprintf("index element id field = %s.%s", a.RefT.Obj().Name(), a.RefT.Underlying().(*types.Struct).Field(a.RefIDField).Name()))
+		}
 	}
 	sort.Strings(a.Unresolved)
 	return a
